@@ -247,13 +247,13 @@ impl Property for C14 {
         C14 { bases }
     }
     fn rule(&self) -> String {
-        format!("fault enumeration: for each of {} small pool packages (unsigned, signed, with files, hand-encoded, rpmbuild-made), Package::write and PackageMetadata::write into scripted sinks - EVERY failure offset 0..len crossed with 16 chunking families (1 byte, fixed 2/3/5/16/17/4096, seeded random 1..64 sequences, with and without interleaved Interrupted errors; six of them sinks with their own gathering write_vectored accepting 1/17/100/300/1000/random bytes per call), plus the no-failure run of each family; every offset again with four families of sinks that signal 'full' by accepting 0 bytes instead of failing; Package::parse from scripted sources (same families x BufReader capacities 1/7/64/8192) from BufReads whose first buffer ends at EVERY offset (then 1/9/4096 bytes at a time), and from EVERY truncation offset; plus three synthetic packages whose signature or main header exceeds 1 MiB (all read families, sampled write failure offsets and truncations). Non-trivial = a sink script with a short accept or a fault before the end / a source with short reads / a truncation; distinct by construction.", self.bases.len())
+        format!("fault enumeration: for each of {} small pool packages (unsigned, signed, with files, hand-encoded, rpmbuild-made), Package::write and PackageMetadata::write into scripted sinks - EVERY failure offset 0..len crossed with 16 chunking families (1 byte, fixed 2/3/5/16/17/4096, seeded random 1..64 sequences, with and without interleaved Interrupted errors; six of them sinks with their own gathering write_vectored accepting 1/17/100/300/1000/random bytes per call), plus the no-failure run of each family; every offset again with four families of sinks that signal 'full' by accepting 0 bytes instead of failing; Package::parse from scripted sources (same families x BufReader capacities 1/7/64/8192) from BufReads whose first buffer ends at EVERY offset (then 1/9/4096 bytes at a time), and from EVERY truncation offset; plus three synthetic packages whose signature or main header exceeds 1 MiB (all read families, sampled write failure offsets and truncations), plus four hand-encoded packages whose main header store does not end with a region trailer (no region / a string stored behind the trailer / unreferenced trailing bytes / a trailing string array: EVERY truncation offset, EVERY first-buffer boundary, all read families). Non-trivial = a sink script with a short accept or a fault before the end / a source with short reads / a truncation; distinct by construction.", self.bases.len())
     }
     fn assumptions(&self) -> Vec<String> {
         vec!["canonical bytes = write into a Vec; the sinks obey the Write contract (accept >= 1 byte of a non-empty buffer unless they fail)".into()]
     }
     fn required_labels(&self, _t: Tier) -> Vec<&'static str> {
-        vec!["first-buffer-boundary", "full-sink-accepts-zero", "header-over-1MiB", "vectored-sink", "write-ok-short-accepts", "write-failed-at-offset", "read-chunked", "truncated-before-payload", "interrupted"]
+        vec!["first-buffer-boundary", "full-sink-accepts-zero", "header-over-1MiB", "store-without-trailing-region", "vectored-sink", "write-ok-short-accepts", "write-failed-at-offset", "read-chunked", "truncated-before-payload", "interrupted"]
     }
     fn phases(&self, _tier: Tier) -> Vec<Phase<C14Case>> {
         let bases = Arc::new(self.bases.clone());
@@ -369,6 +369,35 @@ impl Property for C14 {
                     Some(C14Case::Truncated { base, at: at.min(len) as u32 })
                 }),
             },
+            // headers whose store does not end with a region trailer: every truncation offset,
+            // every first-buffer boundary, every read family x buffer capacity
+            Phase::Enumerate {
+                name: "regionless-headers",
+                total: (0..N_RL).map(|k| base_bytes(BIG_BASE + N_BIG + k).len() as u64 * 2 + 40).sum(),
+                exhaustive: true,
+                gen: Arc::new(move |i| {
+                    let mut j = i;
+                    for k in 0..N_RL {
+                        let base = BIG_BASE + N_BIG + k;
+                        let len = base_bytes(base).len() as u64;
+                        if j < len {
+                            return Some(C14Case::Truncated { base, at: j as u32 });
+                        }
+                        j -= len;
+                        if j < len {
+                            return Some(C14Case::ReadSplit { base, at: j as u32, then: 1 });
+                        }
+                        j -= len;
+                        if j < 40 {
+                            let fam = (j % 10) as usize;
+                            let bufcap = [1u16, 7, 64, 8192][(j / 10) as usize % 4];
+                            return Some(C14Case::Read { base, chunk: FAMILIES[fam].0.clone(), interrupt_every: FAMILIES[fam].1, bufcap });
+                        }
+                        j -= 40;
+                    }
+                    None
+                }),
+            },
             Phase::Enumerate {
                 name: "every-first-buffer-boundary",
                 total: truncs.len() as u64 * 3,
@@ -401,6 +430,11 @@ impl Property for C14 {
 /// the signature header, 2 = 3 MiB changelog array
 const BIG_BASE: u16 = 60_000;
 const N_BIG: u16 = 3;
+/// bases BIG_BASE + N_BIG + k: small hand-encoded packages whose main header store does NOT end
+/// with a region trailer (k = 0: no region at all, last store bytes belong to a STRING entry;
+/// 1: region plus one string entry stored behind the trailer; 2: no region, three unreferenced
+/// bytes at the end of the store; 3: no region, last entry a STRING_ARRAY)
+const N_RL: u16 = 4;
 
 fn base_bytes(base: u16) -> std::sync::Arc<Vec<u8>> {
     use std::sync::{Arc, OnceLock};
@@ -412,6 +446,34 @@ fn base_bytes(base: u16) -> std::sync::Arc<Vec<u8>> {
     let all = BIG.get_or_init(|| {
         use crate::refimpl::fmt::Val;
         use crate::refimpl::tags;
+        let regionless = |k: u16| -> Arc<Vec<u8>> {
+            let mut main = crate::gen::filepkg::basic_entries("rl");
+            match k {
+                3 => main.push((1_000_001, Val::sa(&["first", "second", "last item"]))),
+                _ => main.push((1_000_000, Val::s("tail-string"))),
+            }
+            main.sort_by_key(|e| e.0);
+            let mut raw = crate::gen::filepkg::wrap(main.clone(), b"07070100000000".to_vec(), false);
+            raw.hdr = match k {
+                1 => fmt::layout_with_dribbles(&main, Some(fmt::TAG_HEADERIMMUTABLE), 1),
+                _ => fmt::layout(&main, None),
+            };
+            if k == 2 {
+                raw.hdr.store.extend_from_slice(b"xyz");
+                raw.hdr.dl += 3;
+            }
+            // digests over the header as laid out now
+            let hb = raw.hdr.bytes();
+            let mut sig_entries = vec![
+                (tags::SIG_SHA1, Val::s(&crate::refimpl::digests::sha1_hex(&[&hb]))),
+                (tags::SIG_SHA256, Val::s(&crate::refimpl::digests::sha256_hex(&[&hb]))),
+                (tags::SIG_MD5, Val::Bin(crate::refimpl::digests::md5_raw(&[&hb, &raw.payload]))),
+            ];
+            sig_entries.sort_by_key(|e| e.0);
+            raw.sig = fmt::layout(&sig_entries, Some(fmt::TAG_HEADERSIGNATURES));
+            raw.sig_pad = vec![0u8; fmt::sig_padding(raw.sig.dl)];
+            Arc::new(raw.encode())
+        };
         let text = |n: usize, salt: u8| -> String { (0..n).map(|i| (b'a' + ((i as u64 * 2654435761 >> 7) as u8 ^ salt) % 26) as char).collect() };
         (0..N_BIG)
             .map(|k| {
@@ -443,6 +505,7 @@ fn base_bytes(base: u16) -> std::sync::Arc<Vec<u8>> {
                 }
                 Arc::new(raw.encode())
             })
+            .chain((0..N_RL).map(regionless))
             .collect()
     });
     all[(base - BIG_BASE) as usize % all.len()].clone()
@@ -457,7 +520,7 @@ fn inner(case: &C14Case, o: &mut Outcome) -> Result<(), (String, String)> {
             let bytes_arc = base_bytes(*base);
             let bytes: &Vec<u8> = &bytes_arc;
             if *base >= BIG_BASE {
-                o.label("header-over-1MiB");
+                o.label(if *base < BIG_BASE + N_BIG { "header-over-1MiB" } else { "store-without-trailing-region" });
             }
             let pkg = rpm::Package::parse(&mut &bytes[..]).map_err(|e| ("harness-pool".to_string(), e.to_string()))?;
             let mut canonical = Vec::new();
@@ -504,7 +567,7 @@ fn inner(case: &C14Case, o: &mut Outcome) -> Result<(), (String, String)> {
             let bytes_arc = base_bytes(*base);
             let bytes: &Vec<u8> = &bytes_arc;
             if *base >= BIG_BASE {
-                o.label("header-over-1MiB");
+                o.label(if *base < BIG_BASE + N_BIG { "header-over-1MiB" } else { "store-without-trailing-region" });
             }
             let want = rpm::Package::parse(&mut &bytes[..]).map_err(|e| ("harness-pool".to_string(), e.to_string()))?;
             let src = Source { data: bytes, pos: 0, chunk: chunk.clone(), state: if let Chunk::Seeded(s) = chunk { *s } else { 0 }, calls: 0, interrupt_every: *interrupt_every };
@@ -552,7 +615,7 @@ fn inner(case: &C14Case, o: &mut Outcome) -> Result<(), (String, String)> {
             let bytes_arc = base_bytes(*base);
             let bytes: &Vec<u8> = &bytes_arc;
             if *base >= BIG_BASE {
-                o.label("header-over-1MiB");
+                o.label(if *base < BIG_BASE + N_BIG { "header-over-1MiB" } else { "store-without-trailing-region" });
             }
             let payload_start = fmt::decode(bytes).map(|s| s.payload_start).map_err(|e| ("harness-pool".to_string(), e))?;
             let cut = &bytes[..(*at as usize).min(bytes.len())];
